@@ -368,6 +368,33 @@ var constraints = []constraintSpec{
 	{"banana", "malformed"}, {">= one.two", "malformed"}, {"1.0.0.0.0", "malformed"},
 }
 
+// preRunning is a pre-release build of Crossplane; constraintsPre is its truth table (entries on
+// which semantic-version precedence and the Masterminds constraint rules agree).
+const preRunning = "v1.20.0-rc.1"
+
+var constraintsPre = []constraintSpec{
+	{"", "none"},
+	{">=v1.20.0-rc.1", "met"}, {">=v1.20.0-0", "met"}, {">=v1.19.0-0", "met"},
+	{">=v1.20.0", "unmet"}, {">=v1.20.0-rc.2", "unmet"}, {"<v1.20.0-rc.1", "unmet"}, {">=v1.21.0", "unmet"},
+	{"banana", "malformed"}, {">= one.two", "malformed"},
+}
+
+// rebase replaces the constraint of every meta by one of the same class from the pre-release
+// table (the package is then reconciled by a Crossplane running preRunning).
+func (c *content) rebase(r interface{ IntN(int) int }) {
+	for i := range c.Metas {
+		var same []constraintSpec
+		for _, cs := range constraintsPre {
+			if cs.Class == c.Metas[i].CClass {
+				same = append(same, cs)
+			}
+		}
+		if len(same) > 0 {
+			c.Metas[i].Constraint = same[r.IntN(len(same))].Expr
+		}
+	}
+}
+
 func constraintsOf(class string) []constraintSpec {
 	var out []constraintSpec
 	for _, c := range constraints {
